@@ -73,11 +73,12 @@ type SpecDB struct {
 	Order   []string
 	Files   []string
 	Assumes []string // textual list of assumptions declared in the files
+	Void    map[string]bool // contracts that do not apply to the current tree (the function's signature changed): treated as absent
 	Raw     map[string][]string
 }
 
 func (db *SpecDB) Lookup(name string) *FuncSpec {
-	if db == nil {
+	if db == nil || db.Void[name] {
 		return nil
 	}
 	return db.Funcs[name]
@@ -87,7 +88,7 @@ var clauseKW = regexp.MustCompile(`^(func|extern|define|requires|ensures|modifie
 
 // LoadSpecs reads every given contract file.
 func LoadSpecs(files []string) (*SpecDB, error) {
-	db := &SpecDB{Funcs: map[string]*FuncSpec{}, Macros: map[string]*Macro{}, Raw: map[string][]string{}}
+	db := &SpecDB{Funcs: map[string]*FuncSpec{}, Macros: map[string]*Macro{}, Raw: map[string][]string{}, Void: map[string]bool{}}
 	for _, f := range files {
 		if err := db.loadFile(f); err != nil {
 			return nil, err
